@@ -104,7 +104,7 @@ def _info_bounded(prop):
                         "(P single residue 3 atoms, Q one atom, R three residues X,Y,X with gapped residue numbers, W solvent never given a topology) "
                         "containing at least one loadable species; every subset of the loaded species given an end molecule (the empty subset and "
                         "the states 'maps not calculated' / 'one map missing' must raise an error (any type; the code raises SystemError) and create no file); rectangular and triclinic box (triclinic kinds rotated over the cases: mixed-sign, all-negative, hexagonal v2x=-a/2, all-positive, one tiny negative tilt term); "
-                        "scale factors 0.5, 1.0, 1.7; title with and without trailing blanks; two topology loading orders; plus the shipped BMIM/BF4 box. "
+                        "scale factors 0.5, 1.0, 1.7; titles rotated over the cases (plain, trailing blanks, blank line, spaces only, multi-byte characters); two topology loading orders; plus the shipped BMIM/BF4 box. "
                         "Exchange maps are initialised directly (no Monte-Carlo).  The output is parsed by an independent fixed-width parser.  "
                         "One obligation per (function, clause, scope family); a family is (first species of the sequence[, second], box kind, "
                         "title variant) -- the families partition the scope and are what the pool runs in parallel."),
@@ -130,7 +130,13 @@ BOXES = {
 }
 # the triclinic scope family rotates over these kinds (one per (sequence, subset) in turn) instead of multiplying the scope
 BOX_ROTATION = {"rect": ("rect",), "tric": ("tric", "tric-neg", "tric-hex", "tric-pos", "tric-tiny")}
-TITLES = ("C05 generated coarse-grained system", "C05 generated system, t= 0.00000   ")
+TITLES = ("C05 generated coarse-grained system", "C05 generated system, t= 0.00000   ",
+          "",                                                   # blank title line
+          "    ",                                               # spaces only
+          "C05 syst\u00e8me \u00e0 gros grains \u2014 \u7cfb\u7edf \u00b5=1")   # multi-byte characters
+# the two title families (which also fix the topology loading order) rotate over these titles, one per
+# (sequence, subset) in turn, instead of multiplying the scope
+TITLE_ROTATION = {0: (0, 2, 4), 1: (1, 3, 2)}
 
 # molecule name -> CG and AA descriptions; atom templates in nm
 SPEC = {
@@ -249,12 +255,12 @@ def build_texts(seq, box, title_idx):
 
 def write_files(d, texts):
     files = {"sys": os.path.join(d, "system_cg.gro"), "cg_itp": {}, "aa_gro": {}, "aa_itp": {}}
-    with open(files["sys"], "w") as f:
+    with open(files["sys"], "w", encoding="utf-8") as f:
         f.write(texts["sys"])
     for key, suffix in (("cg_itp", "_CG.itp"), ("aa_gro", "_AA.gro"), ("aa_itp", "_AA.itp")):
         for name, txt in texts[key].items():
             p = os.path.join(d, name + suffix)
-            with open(p, "w") as f:
+            with open(p, "w", encoding="utf-8") as f:
                 f.write(txt)
             files[key][name] = p
     return files
@@ -545,7 +551,7 @@ def run_case(files, model, load_order, subset, scale, workdir, keep=None):
         if R[RETURNS][0] is not True:
             _rm(out)
             return R
-        with open(out) as f:
+        with open(out, encoding="utf-8", errors="replace") as f:
             text = f.read()
         # ---- the input molecules as the real System yields them must be the generated ones
         mols, e = _call(lambda: list(manager.system))
@@ -627,16 +633,16 @@ def subsets(names):
             yield list(c)
 
 
-def load_order_for(seq, title_idx):
+def load_order_for(seq, title_family):
     order = [SPEC[s]["name"] for s in LOADABLE if s in seq]
-    return order if title_idx == 0 else order[::-1]
+    return order if title_family == 0 else order[::-1]
 
 
-def synthetic_case(seq, box, title_idx, subset, scale, workdir, keep=None):
+def synthetic_case(seq, box, title_idx, subset, scale, workdir, keep=None, order=None):
     texts, ranges = build_texts(seq, box, title_idx)
     model = model_from_synthetic(texts, ranges)
     files = write_files(workdir, texts)
-    order = load_order_for(seq, title_idx)
+    order = list(order) if order else load_order_for(seq, title_idx % 2)
     sub = [n for n in order if n in subset]
     return run_case(files, model, order, sub, scale, workdir, keep=keep), texts, model
 
@@ -726,12 +732,13 @@ def task_synthetic(maxlen, first, second, box, ti, seed):
             kinds = BOX_ROTATION[box]
             for si, sub in enumerate(subsets(order)):
                 kind = kinds[(nseq + si) % len(kinds)]
-                texts, ranges = build_texts(seq, kind, ti)
+                tix = TITLE_ROTATION[ti][(nseq + si) % len(TITLE_ROTATION[ti])]
+                texts, ranges = build_texts(seq, kind, tix)
                 model = model_from_synthetic(texts, ranges)
                 files = write_files(d, texts)
                 for scale in (SCALES if sub else SCALES[:1]):
                     case = {"kind": "synthetic", "seq": seq, "subset": sub, "box": kind, "scale": scale,
-                            "title": ti, "load_order": order, "system_gro": texts["sys"]}
+                            "title": tix, "load_order": order, "system_gro": texts["sys"]}
                     case["rseed"] = _case_seed(case, seed)
                     np.random.seed(case["rseed"])      # the free rotation of small references is replayable per case
                     try:
@@ -953,7 +960,8 @@ def task_guards(seed):
         cover = {"solvent": any("W" in s for s in seqs), "repeat": any(len(set(s)) < len(s) for s in seqs),
                  "interleaved": "PRP" in seqs, "multi-residue": any("R" in s for s in seqs),
                  "one-atom-reference": any("Q" in s for s in seqs), "sequences": len(seqs),
-                 "box-kinds": sorted(k for v in BOX_ROTATION.values() for k in v)}
+                 "box-kinds": sorted(k for v in BOX_ROTATION.values() for k in v),
+                 "titles": [TITLES[i] for i in sorted({i for v in TITLE_ROTATION.values() for i in v})] or None}
         out.append(ob(f"{FN}/guard.scope-not-vacuous", "discharged" if all(cover.values()) else "refuted", kind="guard",
                       engine="smallscope", backend="enumeration", expect="discharged", sample=cover))
     finally:
@@ -1011,7 +1019,8 @@ def replay(prop, cex):
                 R = run_case(files, model, list(cex.get("load_order") or ["BMIM", "BF4"]), list(cex["subset"]),
                              float(cex["scale"]), d)
             else:
-                R, _, _ = synthetic_case(cex["seq"], cex["box"], int(cex["title"]), list(cex["subset"]), float(cex["scale"]), d)
+                R, _, _ = synthetic_case(cex["seq"], cex["box"], int(cex["title"]), list(cex["subset"]), float(cex["scale"]), d,
+                                            order=cex.get("load_order"))
         except Harness as e:
             return {"reproduced": False, "note": f"set-up problem on replay: {e}", "inputs": cex}
         failed = {c: v[1] for c, v in R.items() if v[0] is False}
